@@ -4,7 +4,7 @@ A scratch copy of the harness is pointed at a scratch worktree of /repo under /t
 usage: matrix.py <patch>[,<patch>...] <ID>[,<ID>...] [--tier quick]
 Prints, per patch, which checks report a violation that is not a listed known finding."""
 import json, os, re, subprocess, sys, shutil
-V = "/verif"; S = "/tmp/mm"
+V = "/verif"; S = os.environ.get("MATRIX_SCRATCH", "/tmp/mm")
 PROFS = tuple(os.environ.get("MATRIX_PROFILES", "checked,fast").split(","))
 def sh(cmd, **kw): return subprocess.run(cmd, shell=True, text=True, errors="replace", stdout=subprocess.PIPE, stderr=subprocess.STDOUT, **kw)
 def setup():
